@@ -129,6 +129,8 @@ def crash_keys(target, text):
         # a walker abort also prints a 'deadly signal' report; do not key it twice
         li = text.find("ERROR: LeakSanitizer")
         head, leak = (text, "") if li < 0 else (text[:li], text[li:])
+        # UBSan prints "<header>: note: nonnull attribute specified here" between the report and its stack
+        head = "\n".join(l for l in head.split("\n") if ": note: " not in l)
         for k, ex in vflib.sanitizer_keys(head):
             out.append((k, ex))
         out += leak_keys(leak)
@@ -358,6 +360,9 @@ def vg_reports(text):
         ln = lines[i]
         if ln.startswith("C09-FILE: "):
             cur = ln[10:].strip()
+        wm = WALK_RE.match(ln)
+        if wm:
+            out.append((wm.group(1), "\n".join(lines[max(0, i - 14):i + 1]), cur))
         m = VG_ERR_RE.match(ln)
         if m:
             j = i + 1
@@ -373,6 +378,10 @@ def vg_reports(text):
                     break
             if fn is None:
                 fn = frames[0][0] if frames else "?"
+            if "client check request" in m.group(1):
+                # reported by the walker itself as a C09-WALKER line naming the field
+                i = j
+                continue
             out.append(("memcheck:%s:%s" % (vg_kind(m.group(1)), fn), "\n".join(lines[i:min(j, i + 16)]), cur))
             i = j
             continue
